@@ -32,6 +32,9 @@ def run_scenarios(chk, scenarios, tag):
     return outs, parsed
 
 
+LIMIT_SURVIVORS = {}
+
+
 def c05(chk):
     """Whole networks dialing each other simultaneously over the fabric."""
     quick = chk.tier == "quick"
@@ -161,7 +164,20 @@ def c05(chk):
         # a background dial is not made when the peer is already connected by then: with a single connection there is no tie to break
         adds = len(re.findall(r"active,inst=[0-9a-fx]+,add,", res[-1]))
         if limited:
-            continue      # which of the two survives may be decided by the limit, not by the tie-break
+            # which of the two survives may be decided by the limit, not by the tie-break alone: MutualDialLimit.possible_survivors
+            # (node 0 = A dials X, node 1 = B dials Y; o1 = "out" means node 1 dialed the survivor)
+            lim_node = "A" if " maxconn=1" in cmds[0] else "B"
+            got = "Y" if o1 == "out" else "X"
+            poss = LIMIT_SURVIVORS.get((lim_node, lt))
+            if poss is None:
+                poss = LIMIT_SURVIVORS[(lim_node, lt)] = run_model(["mdlimit %s %d" % (lim_node, lt)])[0].split(",")
+            chk.evaluations += 1
+            chk.count("limited-pair-survivor:%s-of-%s" % (got, "".join(poss)))
+            if o0 == o1:
+                chk.monitor_fail("the two ends of the surviving connection report the same origin (%s)" % o0, dict(case=sc, impl=o[:800]))
+            elif got not in poss:
+                chk.disagree(sc, "limit at %s, id(A)<id(B)=%s: connection %s survived" % (lim_node, lt, got), "MutualDialLimit.possible_survivors: %s" % poss, "simnet/mutual-dial-limit")
+            continue
         if adds < 4:
             chk.count("second-dial-not-made (peer already connected)")
             if o0 == o1:
